@@ -347,3 +347,46 @@ class NF:
 
     def show(self, rf):
         return rf.to_str(self.table)
+
+
+def simp(t, assume, memo=None):
+    """rewrite a term under boolean assumptions {cond term: bool}: decided selects are resolved"""
+    if memo is None:
+        memo = {}
+    if not isinstance(t, tuple) or not t:
+        return t
+    r = memo.get(t)
+    if r is not None:
+        return r
+    nf = NF(assume)
+    h = t[0]
+    if h in ('sel', 'selv'):
+        c = simp(t[1], assume, memo)
+        v = nf.cond_value(c)
+        if v is True:
+            r = simp(t[2], assume, memo)
+        elif v is False:
+            r = simp(t[3], assume, memo)
+        else:
+            a = simp(t[2], assume, memo)
+            b = simp(t[3], assume, memo)
+            r = a if a == b else (h, c, a, b)
+    elif h in ('and', 'or', 'not', 'fcmp', 'icmp') :
+        parts = tuple(simp(x, assume, memo) if isinstance(x, tuple) else x for x in t)
+        v = nf.cond_value(parts)
+        if v is True:
+            r = TRUE
+        elif v is False:
+            r = FALSE
+        elif h == 'and':
+            r = mk_and(parts[1], parts[2])
+        elif h == 'or':
+            r = mk_or(parts[1], parts[2])
+        elif h == 'not':
+            r = mk_not(parts[1])
+        else:
+            r = parts
+    else:
+        r = tuple(simp(x, assume, memo) if isinstance(x, tuple) else x for x in t)
+    memo[t] = r
+    return r
